@@ -20,7 +20,8 @@ META = {
             "statement's 'completed runs' (a completed run removes its partial files); it is reported under its own key.",
     "structural": "In addition, frame obligations are discharged on the AST of the stage entry points (pyvc/frames.py): every file opened in append mode is truncated or removed "
                   "earlier in the same call, every shuffle is preceded by its own seed, writes into the module-level symbol table only bind 'a<i>' to the i-th parameter symbol, all other "
-                  "files are opened with 'w' and shell redirections use '>'.",
+                  "files are opened with 'w' and shell redirections use '>'; no function of the generation and fitting modules writes a module-level container other than the symbol table "
+                  "(a cache that survives a call would make the next call depend on it).",
     "technique": "frame obligations on the AST (structural) + differential testing of call histories against a fresh-process reference, byte comparison of all produced files",
 }
 CHECKER = "./bin/check C16 (harness/rt_c16.py: one process per history, sha256 of the produced files vs fresh-process reference)"
@@ -132,6 +133,12 @@ def fit_histories(tier, seed=0):
     obs_z = {"op": "stages", "comp": 3, "rewrite": "zeroerr"}
     H["3 (all likelihoods non-finite)"] = (lib, obs_z, [("ranked_run_then_run_that_ranks_nothing", [{"op": "stages", "comp": 3}, obs_z]),
                                                         ("run_that_ranks_nothing_twice", [obs_z, obs_z])])
+    # the non-default option ignore_previous_eqns=True reads a list of lower-complexity functions: another function set at the same complexity first
+    libs2 = [{"op": "lib", "runname": rn, "n": n} for rn in ("core_maths", "ext_maths") for n in (1, 2, 3)]
+    kwi = {"fit": {"ignore_previous_eqns": True}}
+    obs_i = {"op": "stages", "comp": 3, "kwargs": kwi}
+    H["3 (ignore_previous_eqns)"] = (libs2, obs_i, [("other_function_set_same_complexity_first", [{"op": "stages", "comp": 3, "fn_set": "ext_maths", "run_name": "otherset", "kwargs": kwi}, obs_i]),
+                                                    ("same_call_twice_ignoring_previous", [obs_i, obs_i])])
     return H
 
 
@@ -215,6 +222,17 @@ def check(run):
     sfailed = D.structural_generic(run, ["generation/generator.py", "generation/simplifier.py", "generation/duplicate_checker.py", "fitting/test_all.py",
                                          "fitting/test_all_Fisher.py", "fitting/match.py", "fitting/combine_DL.py"], frames.obligations, "pyvc.frames (AST analysis)",
                                    "frame obligations: append-mode files reset earlier in the call, shuffles preceded by their own seed, symbol-table writes canonical, truncating writes")
+    # F5: no stage function writes a module-level container (a cache that survives the call)
+    import ast
+    for rel in ["generation/generator.py", "generation/simplifier.py", "generation/duplicate_checker.py", "generation/utils.py", "fitting/test_all.py",
+                "fitting/test_all_Fisher.py", "fitting/match.py", "fitting/combine_DL.py", "fitting/likelihood.py", "fitting/fit_single.py"]:
+        tree = ast.parse(open(run.src(rel)).read())
+        for name, desc, ok, line in frames.module_state_obligations(tree):
+            fq = "esr/%s::%s" % (rel, name)
+            run.add_function(fq, rel, note="frame obligations (pyvc/frames.py)")
+            run.add_obligation("%s/%s" % (name, desc), fq, "proved" if ok else "refuted", "pyvc.frames (AST analysis)", 0.0, desc)
+            if not ok:
+                sfailed.append((fq, desc, line))
     D.report_structural(run, sfailed, "frames", "pyvc/frames.py")
     run.trust("pyvc.frames (structural analysis of file modes, RNG seeding and module-level state)")
     return run.finish(META["level"], META["text"], CHECKER,
